@@ -14,10 +14,11 @@ CHECK = dict(
          'non-trivial when at least one byte was returned or dumped; distinct = distinct tuples (part, fault, complete '
          'sequence of results including the calls after the first -1 [, dump text]), counted with a hash set, each tuple '
          'only by the worker owning its hash (lower bound of the global count)',
-    bounds=dict(quick='(a) lengths 0..49 x every position x 256 values x 5 backgrounds; (b) 2 white-space x 2 trailing x '
-                      '2 address forms x {0a,F9} x optional 0x, up to 3 pairs per line, all 1- and 2-line texts, plus the '
-                      '22x22 pair sweep; (c) all 9^0+..+9^7 = 5,380,840 strings of length <= 7, 2 placements x 2 protocols',
-                thorough='(a) as quick; (b) 3 white-space x 3 trailing x 3 address forms, all 1- and 2-line texts; '
+    bounds=dict(quick='(a) lengths 0..49 x every position x 256 values x 5 backgrounds (0x00,0x0f,0xa0,0xff,ramp); '
+                      '(b) lines = {none,"10:","0fA0:"} x up to 3 x ({"", " ", tab} ["0x"] {0a,F9}) x {"", " \\t\\r"} = 11,310 '
+                      'lines, every 1- and 2-line text (127.9 M), plus the 22x22 pair sweep; (c) all 9^0+..+9^7 = '
+                      '5,380,840 strings of length <= 7, 2 placements x 2 protocols',
+                thorough='(a) as quick; (b) pair values {0a,F9,bC}: 37,050 lines, every 1- and 2-line text (1.37 G); '
                          '(c) all 48,427,561 strings of length <= 8, 2 placements x 2 protocols'),
     assumptions=['cursor protocol: first call hex_get_byte(text,&p), later calls hex_get_byte(NULL,&p) (mode 1); the '
                  'hextest.c idiom hex_get_byte(cur,&cur) (mode 2) is value-checked only on texts without an address '
